@@ -322,6 +322,15 @@ func c04RunOps(c *Case, root string, addFail func(Fail), fails *[]Fail) (string,
 		// byte identity of everything forwarded by this process, against the bytes given to Accept
 		for _, t := range res.taken {
 			id, hexData := t[0], t[1]
+			known := false
+			for _, op := range ops {
+				if (op.Code == opAccept || op.Code == opTamper) && int(op.A) < len(c.S) && string(c.S[op.A]) == id {
+					known = true
+				}
+			}
+			if !known || !c03Match(id) {
+				addFail(Fail{"c04:foreign-file-forwarded", fmt.Sprintf("consumer received a chunk under the name %s (%d bytes %s) which no chunk was ever accepted under (leftover of an interrupted write?)", id, len(hexData)/2, hexData)})
+			}
 			for _, op := range ops {
 				if op.Code == opAccept && int(op.A) < len(c.S) && string(c.S[op.A]) == id {
 					want := fmt.Sprintf("%x", c.S[op.B])
